@@ -1615,6 +1615,17 @@ Section Pool.
     - intros s l s' _ (C & I) H. split; [eapply coh_step|eapply IInv_step]; eauto.
   Qed.
 
+  Theorem init_callback : forall progs s, preach nw maxq (pinit nw progs) s ->
+    (forall t, count_occ Nat.eq_dec (inits (evs s)) t <= 1) /\
+    (forall t, pc_at s t = Some WInit -> ~ In (EvInit t) (evs s)) /\
+    (forall t p, pc_at s t = Some p -> t < nw -> p <> WInit -> In (EvInit t) (evs s)) /\
+    (forall t k, In (EvTake t k) (evs s) -> In (EvInit t) (evs s)) /\
+    (forall t k, In (EvStart t k) (evs s) -> In (EvInit t) (evs s)).
+  Proof.
+    intros progs s Hr. pose proof (IInv_reach progs s Hr) as [Fr On Pa Fi].
+    split; [exact On|]. split; [exact Fr|]. split; [exact Pa|]. split; intros t k Hin; exact (Fi _ Hin).
+  Qed.
+
   (* ================================================================ how many stop() calls are under way *)
   Definition sw (p : pc) : nat :=
     stops_of (pc_ops p) + match p with CStopping _ | CJoin _ _ | CFault _ => 1 | _ => 0 end.
@@ -1733,6 +1744,13 @@ Section Pool.
   Theorem at_most_once : forall progs s, reachable progs s -> forall k,
     count_occ Nat.eq_dec (started (evs s)) k <= count_occ Nat.eq_dec (accepted (evs s)) k.
   Proof. intros progs s Hr k. rewrite (accounting _ _ Hr k). lia. Qed.
+
+  Theorem at_most_once_full : forall progs s, reachable progs s -> forall k,
+    count_occ Nat.eq_dec (started (evs s)) k <= count_occ Nat.eq_dec (accepted (evs s)) k /\
+    count_occ Nat.eq_dec (accepted (evs s)) k =
+      count_occ Nat.eq_dec (started (evs s)) k + count_occ Nat.eq_dec (inhand (pcs s)) k +
+      count_occ Nat.eq_dec (queue (shared (mon s))) k.
+  Proof. intros progs s Hr k. split; [exact (at_most_once progs s Hr k)|exact (accounting progs s Hr k)]. Qed.
 
   Lemma accepted_in : forall e, accepted e <> [] -> exists t k, In (EvAccept t k) e.
   Proof.
@@ -2112,4 +2130,254 @@ Section Pool.
     intros Hnd k. specialize (I k). unfold decided in I. pose proof (at_most_once _ _ Hr k) as Ha.
     rewrite (NoDup_count_occ Nat.eq_dec) in Hnd. specialize (Hnd k). unfold task in *. lia.
   Qed.
+
+  (* ================================================================ per client: its run() calls are decided in program order *)
+  Definition CInv (progs : list (list uop)) (s : psys) : Prop :=
+    forall x v, nth_error (views s) x = Some v -> nw <= x ->
+      runs_of (nth (x - nw) progs []) = decided_by x (evs s) ++ pend1 v.
+
+  Lemma decided_by_app : forall x e e', decided_by x (e ++ e') = decided_by x e ++ decided_by x e'.
+  Proof. intros. unfold decided_by. apply flat_map_app. Qed.
+
+  Lemma decided_by_other : forall x t ev, (forall y, In y ev -> event_thread y = t) -> x <> t -> decided_by x ev = [].
+  Proof.
+    intros x t ev H Hne. unfold decided_by. apply flat_map_nil_all. intros y Hy. specialize (H _ Hy).
+    destruct y; auto; cbn in H; subst; (destruct (Nat.eqb t x) eqn:E; [apply Nat.eqb_eq in E; congruence|reflexivity]).
+  Qed.
+
+  Lemma CInv_upd : forall progs s t v v' ev, CInv progs s -> nth_error (views s) t = Some v ->
+    (forall y, In y ev -> event_thread y = t) ->
+    (nw <= t -> pend1 v = decided_by t ev ++ pend1 v') ->
+    forall x v2, nth_error (upd t v' (views s)) x = Some v2 -> nw <= x ->
+      runs_of (nth (x - nw) progs []) = decided_by x (evs s ++ ev) ++ pend1 v2.
+  Proof.
+    intros progs s t v v' ev I Hv Hby He x v2 Hx Hle. rewrite decided_by_app.
+    destruct (Nat.eq_dec t x) as [->|Hne].
+    - rewrite (nth_error_upd_eq _ _ _ _ Hv) in Hx. inversion Hx; subst.
+      rewrite (I _ _ Hv Hle), (He Hle), app_assoc. reflexivity.
+    - rewrite nth_error_upd_neq in Hx by auto. rewrite (decided_by_other x t ev Hby) by auto.
+      rewrite app_nil_r. apply I; auto.
+  Qed.
+
+  Lemma combine_wakes_nth : forall (ps : list pc) (ths ths' : list (thread pop)) x p b, wakes ths ths' ->
+    nth_error (combine ps ths') x = Some (p, b) ->
+    exists a, nth_error (combine ps ths) x = Some (p, a) /\ prog b = prog a.
+  Proof.
+    intros ps ths ths' x p b H. revert ps x. induction H as [|a0 b0 l l' Hk Hw IH]; intros [|p0 ps] [|x] Hn; cbn in Hn; try discriminate.
+    - inversion Hn; subst. exists a0. split; [reflexivity|apply (wk_prog _ _ Hk)].
+    - cbn. apply IH. exact Hn.
+  Qed.
+
+  Lemma CInv_step : forall progs s l s', coh s -> CInv progs s -> pstep s l = Some s' -> CInv progs s'.
+  Proof.
+    intros progs s l s' C I H. pose proof (pstep_sound _ _ _ H) as R.
+    assert (Hth : forall t, pc_at s t <> None -> exists th, nth_error (threads (mon s)) t = Some th).
+    { intros t Hp. destruct (nth_error (threads (mon s)) t) eqn:E; eauto. exfalso. apply nth_error_None in E.
+      destruct C as (Hlen & _). apply nth_error_Some in Hp. lia. }
+    assert (Hnil : forall x v2, nth_error (views s) x = Some v2 -> nw <= x ->
+              runs_of (nth (x - nw) progs []) = decided_by x (evs s ++ []) ++ pend1 v2).
+    { intros. rewrite app_nil_r. apply I; auto. }
+    inversion R; subst; unfold CInv, views; cbn [pcs mon threads evs]; intros x v2 Hx Hle.
+    - pose proof (cohL_pc_at _ _ _ _ C H0) as Hpc. rewrite (views_upd_th _ _ _ _ _ Hpc H0) in Hx.
+      rewrite <- (app_nil_r (evs s)). eapply (CInv_upd progs s t (nth t (pcs s) WDone, th)); eauto.
+      + apply nth_error_combine; auto.
+      + intros y [].
+      + intros _. unfold pend1, prog_runs. cbn [fst snd prog]. rewrite H2. reflexivity.
+    - pose proof (cohL_pc_at _ _ _ _ C H0) as Hpc. rewrite (views_upd_th _ _ _ _ _ Hpc H0) in Hx.
+      rewrite <- (app_nil_r (evs s)). eapply (CInv_upd progs s t (nth t (pcs s) WDone, th)); eauto.
+      + apply nth_error_combine; auto.
+      + intros y [].
+      + intros _. unfold pend1, prog_runs. cbn [fst snd prog]. rewrite H2. reflexivity.
+    - pose proof (cohL_pc_at _ _ _ _ C H0) as Hpc. rewrite (views_upd_th _ _ _ _ _ Hpc H0) in Hx.
+      rewrite <- (app_nil_r (evs s)). eapply (CInv_upd progs s t (nth t (pcs s) WDone, th)); eauto.
+      + apply nth_error_combine; auto.
+      + intros y [].
+      + intros _. reflexivity.
+    - pose proof (cohL_pc_at _ _ _ _ C H0) as Hpc. rewrite (views_upd_th _ _ _ _ _ Hpc H0) in Hx.
+      rewrite <- (app_nil_r (evs s)). eapply (CInv_upd progs s t (nth t (pcs s) WDone, th)); eauto.
+      + apply nth_error_combine; auto.
+      + intros y [].
+      + intros _. reflexivity.
+    - (* return from a section *)
+      pose proof (cohL_pc_at _ _ _ _ C H0) as Hpc.
+      assert (Hv : nth_error (views s) t = Some (nth t (pcs s) WDone, th)) by (apply nth_error_combine; auto).
+      destruct v2 as [p2 b].
+      destruct (combine_wakes_nth _ _ _ _ _ _ (apply_signals_wakes sg picks _) Hx) as (a & Ha & Hpa).
+      rewrite combine_upd in Ha. fold (views s) in Ha.
+      assert (Ep : pend1 (p2, b) = pend1 (p2, a)) by (unfold pend1, prog_runs; cbn [fst snd]; rewrite Hpa; reflexivity).
+      rewrite Ep. eapply (CInv_upd progs s t _ _ (ev_of t o r) I Hv); eauto.
+      + intros y Hy. destruct o; destruct r as [| |[k1|]| |]; cbn in Hy; try tauto; destruct Hy as [<-|[]]; reflexivity.
+      + intros _. unfold pend1, prog_runs. cbn [fst snd prog]. rewrite H2, pc_ops_after_ret. cbn [flat_map].
+        rewrite <- app_assoc. f_equal.
+        destruct o as [k0| | |]; destruct r as [| |[k1|]| |]; cbn; rewrite ?Nat.eqb_refl; reflexivity.
+    - destruct (set_prog_spec _ _ _ _ _ _ _ H2) as (th & Hn & Hs & ->). cbn [threads] in Hx.
+      destruct (views_upd_both s t WLoop th WTake (mkThread [PTake] Idle) H0 Hn) as (Ev & Hv). unfold views in Ev. rewrite Ev in Hx.
+      rewrite <- (app_nil_r (evs s)). eapply (CInv_upd progs s t _ _ [] I Hv); eauto.
+      + intros y [].
+      + intros _. destruct C as (_ & Hc). destruct (Hc _ _ _ H0 Hn) as (_ & _ & Hq). unfold pend1, prog_runs. cbn [fst snd prog pc_ops].
+        rewrite Hq. reflexivity.
+    - destruct (Hth t) as (th & Hn); [congruence|]. rewrite (views_upd_pc _ _ _ _ _ H0 Hn) in Hx.
+      rewrite <- (app_nil_r (evs s)). eapply (CInv_upd progs s t (WLoop, th)); eauto.
+      + apply nth_error_combine; auto.
+      + intros y [].
+      + intros _. reflexivity.
+    - destruct (Hth t) as (th & Hn); [congruence|]. rewrite (views_upd_pc _ _ _ _ _ H0 Hn) in Hx.
+      eapply (CInv_upd progs s t (WGot k, th)); eauto.
+      + apply nth_error_combine; auto.
+      + intros y [<-|[]]. reflexivity.
+      + intros _. reflexivity.
+    - destruct (Hth t) as (th & Hn); [congruence|]. rewrite (views_upd_pc _ _ _ _ _ H0 Hn) in Hx.
+      eapply (CInv_upd progs s t (CIdle (URun k :: ops), th)); eauto.
+      + apply nth_error_combine; auto.
+      + intros y [<-|[]]. reflexivity.
+      + intros _. destruct C as (_ & Hc). destruct (Hc _ _ _ H0 Hn) as (_ & _ & Hq). unfold pend1, prog_runs. cbn [fst snd pc_ops].
+        rewrite Hq. cbn. rewrite Nat.eqb_refl. reflexivity.
+    - destruct (set_prog_spec _ _ _ _ _ _ _ H2) as (th & Hn & Hs & ->). cbn [threads] in Hx.
+      destruct (views_upd_both s t _ th (snd (call_of uo ops)) (mkThread [fst (call_of uo ops)] Idle) H0 Hn) as (Ev & Hv).
+      unfold views in Ev. rewrite Ev in Hx.
+      rewrite <- (app_nil_r (evs s)). eapply (CInv_upd progs s t _ _ [] I Hv); eauto.
+      + intros y [].
+      + intros _. destruct C as (_ & Hc). destruct (Hc _ _ _ H0 Hn) as (_ & _ & Hq). unfold pend1, prog_runs. cbn [fst snd prog].
+        rewrite Hq. destruct uo; reflexivity.
+    - destruct (Hth t) as (th & Hn); [congruence|]. rewrite (views_upd_pc _ _ _ _ _ H0 Hn) in Hx.
+      eapply (CInv_upd progs s t (CJoin i ops, th)); eauto.
+      + apply nth_error_combine; auto.
+      + intros y [<-|[]]. reflexivity.
+      + intros _. reflexivity.
+    - destruct (Hth t) as (th & Hn); [congruence|]. rewrite (views_upd_pc _ _ _ _ _ H0 Hn) in Hx.
+      eapply (CInv_upd progs s t (CJoin i ops, th)); eauto.
+      + apply nth_error_combine; auto.
+      + intros y [<-|[]]. reflexivity.
+      + intros _. reflexivity.
+    - destruct (Hth t) as (th & Hn); [congruence|]. rewrite (views_upd_pc _ _ _ _ _ H0 Hn) in Hx.
+      eapply (CInv_upd progs s t (WInit, th)); eauto.
+      + apply nth_error_combine; auto.
+      + intros y [<-|[]]. reflexivity.
+      + intros _. reflexivity.
+    - destruct (Hth t) as (th & Hn); [congruence|]. rewrite (views_upd_pc _ _ _ _ _ H0 Hn) in Hx.
+      eapply (CInv_upd progs s t (CJoin i ops, th)); eauto.
+      + apply nth_error_combine; auto.
+      + intros y [<-|[]]. reflexivity.
+      + intros _. reflexivity.
+  Qed.
+
+  Lemma CInv_init : forall progs, CInv progs (pinit nw progs).
+  Proof.
+    intros progs x v Hx Hle. unfold views, pinit in Hx. cbn [pcs mon threads init_sys evs] in *.
+    rewrite map_app, combine_app_eq in Hx by (rewrite map_length, !repeat_length; reflexivity).
+    rewrite nth_error_app2 in Hx by (rewrite combine_length, map_length, !repeat_length; lia).
+    rewrite combine_length, map_length, !repeat_length, Nat.min_id in Hx.
+    rewrite !map_map in Hx. cbn [decided_by flat_map app].
+    revert Hx. generalize (x - nw). intros n. revert n. induction progs as [|p r IH]; intros [|n] Hx; cbn in Hx; try discriminate.
+    - inversion Hx; subst. unfold pend1, prog_runs. cbn. reflexivity.
+    - cbn [nth]. apply IH. exact Hx.
+  Qed.
+
+  Theorem CInv_reach : forall progs s, preach nw maxq (pinit nw progs) s -> CInv progs s.
+  Proof.
+    intros progs s Hr. assert (coh s /\ CInv progs s) as (_ & I); auto. revert s Hr. apply preach_inv.
+    - split; [apply coh_init|apply CInv_init].
+    - intros s l s' _ (C & I) H. split; [eapply coh_step|eapply CInv_step]; eauto.
+  Qed.
+
+  (* client t (thread index nw + c) has had its run() calls decided in program order: what has been
+     accepted / rejected / run inline so far is a prefix of the run() calls of its program, and the
+     rest is the call in progress followed by what is left of the program *)
+  Theorem client_program_order : forall progs s c p th, preach nw maxq (pinit nw progs) s ->
+    nth_error (pcs s) (nw + c) = Some p -> nth_error (threads (mon s)) (nw + c) = Some th ->
+    runs_of (nth c progs []) = decided_by (nw + c) (evs s) ++ prog_runs th ++ runs_of (pc_ops p).
+  Proof.
+    intros progs s c p th Hr Hp Hn. pose proof (CInv_reach _ _ Hr (nw + c) (p, th)) as I.
+    replace (nw + c - nw) with c in I by lia. apply I; [apply nth_error_combine; auto|lia].
+  Qed.
+
+  (* a pool without threads: every run() is executed inline, in program order, at the call *)
+  Theorem inline_program_order : forall progs s c p, preach nw maxq (pinit nw progs) s -> nw = 0 ->
+    nth_error (pcs s) c = Some p ->
+    runs_of (nth c progs []) = decided_by c (evs s) ++ runs_of (pc_ops p).
+  Proof.
+    intros progs s c p Hr Hz Hp. pose proof (coh_reach _ _ Hr) as C.
+    destruct (nth_error (threads (mon s)) c) as [th|] eqn:Hn.
+    - pose proof (client_program_order progs s c p th Hr) as E. rewrite Hz in E. cbn [Nat.add] in E.
+      rewrite (E Hp Hn).
+      assert (Hq : prog_runs th = []).
+      { destruct C as (_ & Hc). pose proof (Hc _ _ _ Hp Hn) as Hc1. unfold prog_runs.
+        destruct p; cbn in Hc1; try (destruct Hc1 as (_ & _ & ->); reflexivity).
+        - destruct Hc1 as (Hlt & _). lia.
+        - destruct Hc1 as (_ & o & -> & [->|(Hnz & _)]); [reflexivity|congruence].
+        - destruct Hc1 as (_ & ->). reflexivity. }
+      rewrite Hq. reflexivity.
+    - exfalso. apply nth_error_None in Hn. destruct C as (Hlen & _).
+      assert (nth_error (pcs s) c <> None) as Hx by congruence. apply nth_error_Some in Hx. lia.
+  Qed.
 End Pool.
+
+(* ================================================================ link to the generated guards (Gen_C15) *)
+(* the body of the model with every guard replaced by the one regenerated from ThreadPool.cc *)
+Definition gen_body (maxq : nat) (o : pop) (s : pool) : outcome pool pres :=
+  let full := gen_isFull (Z.of_nat maxq) (Z.of_nat (length (queue s))) in
+  let empty := match queue s with [] => true | _ => false end in
+  match o with
+  | PRun k =>
+      if gen_run_waits full (running s) then Block notFull
+      else if gen_run_rejects (running s) then Ret s RRejected []
+      else Ret (mkPool (queue s ++ [k]) (running s)) RAccepted [Notify notEmpty]
+  | PTake =>
+      if gen_take_waits empty (running s) then Block notEmpty
+      else if gen_take_pops empty then
+             match queue s with
+             | k :: q' => Ret (mkPool q' (running s)) (RTask (Some k))
+                            (if gen_take_notifies (Z.of_nat maxq) then [Notify notFull] else [])
+             | [] => Ret s (RTask None) []
+             end
+           else Ret s (RTask None) []
+  | PStop => Ret (mkPool (queue s) false) RUnit [NotifyAll notEmpty; NotifyAll notFull]
+  | PSize => Ret s (RSize (length (queue s))) []
+  end.
+
+(* the link lemmas are proved by case analysis on the comparisons / booleans, so that a harmless
+   rewriting of a guard (commuted operands, ...) still checks while a changed guard does not *)
+Ltac cmp_cases :=
+  repeat match goal with
+         | |- context [Z.gtb ?a ?b] => rewrite (Z.gtb_ltb a b)
+         | |- context [Z.geb ?a ?b] => rewrite (Z.geb_leb a b)
+         end;
+  repeat match goal with
+         | |- context [Z.ltb ?a ?b] => destruct (Z.ltb_spec a b)
+         | |- context [Z.leb ?a ?b] => destruct (Z.leb_spec a b)
+         | |- context [Z.eqb ?a ?b] => destruct (Z.eqb_spec a b)
+         | |- context [Nat.ltb ?a ?b] => destruct (Nat.ltb_spec a b)
+         | |- context [Nat.leb ?a ?b] => destruct (Nat.leb_spec a b)
+         end;
+  cbn; try reflexivity; try lia.
+
+Lemma link_isFull : forall m (q : list task), gen_isFull (Z.of_nat m) (Z.of_nat (length q)) = isFull m q.
+Proof. intros m q. unfold gen_isFull, isFull. cmp_cases. Qed.
+
+Lemma link_take_notifies : forall m, gen_take_notifies (Z.of_nat m) = (0 <? m).
+Proof. intros m. unfold gen_take_notifies. cmp_cases. Qed.
+
+Lemma link_take_waits : forall (q : list task) r,
+  gen_take_waits (match q with [] => true | _ => false end) r = take_waits q r.
+Proof. intros [|k q] [|]; reflexivity. Qed.
+
+Lemma link_take_pops : forall b, gen_take_pops b = negb b.
+Proof. intros [|]; reflexivity. Qed.
+
+Lemma link_run_waits : forall m (q : list task) r,
+  gen_run_waits (gen_isFull (Z.of_nat m) (Z.of_nat (length q))) r = run_waits m q r.
+Proof. intros m q r. unfold run_waits. rewrite <- link_isFull. destruct (gen_isFull _ _), r; reflexivity. Qed.
+
+Lemma link_run_rejects : forall r, gen_run_rejects r = negb r.
+Proof. intros [|]; reflexivity. Qed.
+
+Lemma link_worker_loops : forall r, gen_worker_loops r = r.
+Proof. intros [|]; reflexivity. Qed.
+
+Theorem link_body : forall maxq o s, gen_body maxq o s = pool_body maxq o s.
+Proof.
+  intros maxq o s. unfold gen_body, pool_body. destruct o as [k| | |]; auto.
+  - rewrite link_run_waits, link_run_rejects. reflexivity.
+  - rewrite link_take_waits, link_take_notifies, link_take_pops.
+    destruct (queue s); cbn [negb]; destruct (take_waits _ _); reflexivity.
+Qed.
